@@ -56,6 +56,6 @@ Lemma expiry_boundary_matches_code :
 Proof. repeat split; vm_compute; reflexivity. Qed.
 
 (* the table driven through the real dispatcher has exactly the cells of Model.all_cells *)
-Lemma table_dims_match : fold_right N.mul 1 table_dims = N.of_nat (length all_cells).
+Lemma table_dims_match : fold_right N.mul 1 table_dims + fold_right N.mul 1 party_dims = N.of_nat (length all_cells).
 Proof. vm_compute. reflexivity. Qed.
 Close Scope N_scope.
